@@ -527,6 +527,21 @@ func typeSchema(d *dialect, tc TypeCase, v colVariant) *Sch {
 	return &Sch{Dialect: d.name, Name: d.schemaNm, Tables: []Tab{t}}
 }
 
+// compose applies features to a copy of the base; ok is false when they do not compose (a feature needs
+// a table or column another one removed).
+func compose(base *Sch, fs ...feature) (s *Sch, ok bool) {
+	defer func() {
+		if recover() != nil {
+			s, ok = nil, false
+		}
+	}()
+	s = base.clone()
+	for _, f := range fs {
+		f.Apply(s)
+	}
+	return s, true
+}
+
 func run(c *rt.Ctx) {
 	thorough := !c.Quick()
 	var cases []Case
@@ -574,19 +589,18 @@ func run(c *rt.Ctx) {
 		base := baseSchema(dn)
 		cases = append(cases, Case{Leg: "schema", Dialect: dn, Label: "catalogue:base", Schema: base.clone()})
 		for i := range fs {
-			s := base.clone()
-			fs[i].Apply(s)
-			cases = append(cases, Case{Leg: "schema", Dialect: dn, Label: "catalogue:" + fs[i].Name, Schema: s})
+			if s, ok := compose(base, fs[i]); ok {
+				cases = append(cases, Case{Leg: "schema", Dialect: dn, Label: "catalogue:" + fs[i].Name, Schema: s})
+			}
 		}
 		npairs := 0
 		if thorough {
 			for i := range fs {
 				for j := i + 1; j < len(fs); j++ {
-					s := base.clone()
-					fs[i].Apply(s)
-					fs[j].Apply(s)
-					cases = append(cases, Case{Leg: "schema", Dialect: dn, Label: "catalogue:" + fs[i].Name + " & " + fs[j].Name, Schema: s})
-					npairs++
+					if s, ok := compose(base, fs[i], fs[j]); ok {
+						cases = append(cases, Case{Leg: "schema", Dialect: dn, Label: "catalogue:" + fs[i].Name + " & " + fs[j].Name, Schema: s})
+						npairs++
+					}
 				}
 			}
 		} else {
@@ -596,11 +610,10 @@ func run(c *rt.Ctx) {
 				if i == j {
 					continue
 				}
-				s := base.clone()
-				fs[i].Apply(s)
-				fs[j].Apply(s)
-				cases = append(cases, Case{Leg: "schema", Dialect: dn, Label: "catalogue:" + fs[i].Name + " & " + fs[j].Name, Schema: s})
-				npairs++
+				if s, ok := compose(base, fs[i], fs[j]); ok {
+					cases = append(cases, Case{Leg: "schema", Dialect: dn, Label: "catalogue:" + fs[i].Name + " & " + fs[j].Name, Schema: s})
+					npairs++
+				}
 			}
 		}
 		extra[dn] = map[string]any{"type_specs_total": nspecs, "grid_types": len(grid), "catalogue_features": len(fs), "catalogue_pairs": npairs}
